@@ -76,7 +76,7 @@ fn exec(c: &Case) -> Vec<String> {
         out.clear();
         let uniq = UNIQ.fetch_add(1, Ordering::SeqCst);
         let fault = Fault::new(stage, at);
-        let r = run_job(job, n, bm, &cfg, Some(fault.clone()), uniq, Duration::from_secs(25));
+        let r = run_job(job, n, bm, &cfg, Some(fault.clone()), uniq, Duration::from_secs(25 * nvh::load_factor() as u64));
         let fired = fault.fired_host.load(Ordering::SeqCst);
         let mut infra = false;
         if fired >= 0 {
